@@ -189,6 +189,49 @@ impl CommitProof {
             leaves_to_prove,
         )
     }
+
+    /// Verify that the given leaves up to and including the
+    /// single index of this proof are the first leaves of the
+    /// tree the proof was taken from.
+    ///
+    /// An equal leaf at an equal index does not mean that the
+    /// leaves before it are equal; the hashes of the nodes to the
+    /// left of the path are computed from the given leaves and
+    /// only the hashes to the right are taken from the proof.
+    pub fn verify_prefix(&self, leaves: &[TreeHash]) -> bool {
+        let index = match self.indices.as_slice() {
+            [index] if *index < leaves.len() && *index < self.length => {
+                *index
+            }
+            _ => return false,
+        };
+
+        let mut hashes = self.proof.proof_hashes().iter();
+        let mut right_hashes = Vec::new();
+        let mut position = index;
+        let mut width = self.length;
+        while width > 1 {
+            let is_left = position % 2 == 0;
+            let sibling = if is_left { position + 1 } else { position - 1 };
+            if sibling < width {
+                match hashes.next() {
+                    Some(hash) if is_left => right_hashes.push(*hash),
+                    Some(_) => {}
+                    None => return false,
+                }
+            }
+            position /= 2;
+            width = width.div_ceil(2);
+        }
+
+        let indices = (0..=index).collect::<Vec<_>>();
+        MerkleProof::<Sha256>::new(right_hashes).verify(
+            self.root().into(),
+            &indices,
+            &leaves[0..=index],
+            self.length,
+        )
+    }
 }
 
 impl From<CommitProof> for (CommitHash, usize) {
